@@ -212,6 +212,101 @@ def c07_sockets(vi: int, e1: int, p1: int, e2: int, p2: int) -> bool:
         shutil.rmtree(tmp, ignore_errors=True)
 
 
+RELOAD_EDITS = ('none', 'np_up', 'cmd_other', 'add_watcher')
+
+
+def c07_reloadconfig(e1: int, e2: int) -> bool:
+    """
+    The managed sockets of a daemon started from a configuration FILE survive reloadconfig requests that leave the socket
+    sections alone (unchanged file, a numprocesses edit, an edit of another watcher, a new watcher): same objects, same
+    descriptors, bound and listening once, never closed; and the workers of every generation are handed the same descriptor.
+
+    pre: 0 <= e1 < len(RELOAD_EDITS) and 0 <= e2 < len(RELOAD_EDITS)
+    post: _
+    """
+    e1 = rt.pick(e1, len(RELOAD_EDITS))
+    e2 = rt.pick(e2, len(RELOAD_EDITS))
+    tmp = tempfile.mkdtemp(prefix='c07r_')
+    path = os.path.join(tmp, 'circus.ini')
+    counter = Counter()
+
+    def text(np, other_cmd, extra):
+        lines = ['[circus]', 'check_delay = -1', 'endpoint = tcp://127.0.0.1:5555', 'pubsub_endpoint = tcp://127.0.0.1:5556', '',
+                 '[watcher:web]', 'cmd = prog --fd $(circus.sockets.web)', 'use_sockets = True', 'numprocesses = %d' % np, 'graceful_timeout = 0.2', '',
+                 '[watcher:other]', 'cmd = %s' % other_cmd, 'numprocesses = 1', 'graceful_timeout = 0.2', '',
+                 '[socket:web]', 'path = %s' % os.path.join(tmp, 'web.sock'), 'backlog = 5', '',
+                 '[socket:api]', 'host = 127.0.0.1', 'port = 0', 'umask = 18', '']
+        if extra:
+            lines += ['[watcher:late]', 'cmd = late', 'numprocesses = 1', 'graceful_timeout = 0.2', '']
+        return '\n'.join(lines)
+    try:
+        with World() as w:
+            _instrument(w, counter)
+            k = w.kernel
+            k.behaviour = lambda i, argv: Beh(obey=0.0)
+            import circus.arbiter as ca
+            real_get_config = ca.get_config
+
+            def get_config_untraced(p_):
+                with rt.untraced():
+                    return real_get_config(p_)
+            w._patch(ca, 'get_config', get_config_untraced)
+            state = {'np': 1, 'cmd': 'other', 'extra': False}
+            with open(path, 'w') as f:
+                f.write(text(1, 'other', False))
+            w.boot_from_config(path)
+            arb = w.arbiter
+            socks0 = dict((n, (id(s), s.fileno())) for n, s in arb.sockets.items())
+            ok = True
+            for e in (RELOAD_EDITS[e1], RELOAD_EDITS[e2]):
+                if e == 'np_up':
+                    state['np'] += 1
+                elif e == 'cmd_other':
+                    state['cmd'] = 'other --v2' if state['cmd'] == 'other' else 'other'
+                elif e == 'add_watcher':
+                    state['extra'] = True
+                with open(path, 'w') as f:
+                    f.write(text(state['np'], state['cmd'], state['extra']))
+                r = w.call('reloadconfig', waiting=True, max_time=30.0)
+                w.quiesce()
+                if not r.replies or r.status != 'ok':
+                    rt.note('reloadconfig (%s) with untouched socket sections: %r', e, r.reply)
+                    ok = False
+                    break
+                for n, s in arb.sockets.items():
+                    if n not in socks0:
+                        continue
+                    if (id(s), s.fileno()) != socks0[n] or s.fileno() < 0:
+                        rt.note('after reloadconfig (%s) socket %s is another object / descriptor: %r -> %r', e, n, socks0[n], (id(s), s.fileno()))
+                        ok = False
+                for n in socks0:
+                    if n not in arb.sockets:
+                        rt.note('after reloadconfig (%s) socket %s is gone', e, n)
+                        ok = False
+                nb = dict((n, len([c for c in counter.calls if c[0] == 'bind' and c[2] == n])) for n in socks0)
+                ncl = dict((n, len([c for c in counter.calls if c[0] == 'close' and c[2] == n])) for n in socks0)
+                if any(v != 1 for v in nb.values()) or any(ncl.values()):
+                    rt.note('after reloadconfig (%s): binds %r closes %r', e, nb, ncl)
+                    ok = False
+                if not ok:
+                    break
+            fd_web = socks0['web'][1]
+            for rec in k.spawn_log:
+                if rec['tag'] == 'web' and (list(rec['argv'])[-1] != str(fd_web) or rec['close_fds'] is not False):
+                    rt.note('worker %d of web: argv %r close_fds %r (socket fd %d)', rec['pid'], rec['argv'], rec['close_fds'], fd_web)
+                    ok = False
+            for n, s in list(arb.sockets.items()):
+                try:
+                    socket.socket.close(s)
+                except Exception:  # noqa
+                    pass
+            return rt.verdict(ok)
+    except (scen.Diverged, scen.BlockedLoop):
+        return rt.skip()
+    finally:
+        shutil.rmtree(tmp, ignore_errors=True)
+
+
 def _canary_pass_fds():
     """close_fds=True + pass_fds for the sockets named (case-sensitively) in cmd"""
     import circus.process as cp
@@ -285,6 +380,8 @@ CANARIES = {
 def plan(tier):
     q = tier == 'quick'
     return [
+        Cond('c07_reloadconfig', budget=120, twins=1,
+             bounds={'e1,e2': 'S: two reloadconfig requests after edits from %r (socket sections untouched)' % (RELOAD_EDITS,)}),
         Cond('c07_sockets', shards=[{'vi': i, 'K': 1 if q else 2} for i in range(len(VARIANTS))] + ([{'vi': 0, 'K': 2}, {'vi': 4, 'K': 2}] if q else []),
              budget=240 if q else 1500, twins=2,
              bounds={'variant': 'S%r' % (VARIANTS,), 'e1,e2': 'S: %d events (deaths, restart, 3 reload modes, incr, decr, check, stop, start, set cmd -> another socket)' % len(EVENTS),
